@@ -53,6 +53,9 @@ rebind names, then the rebinding is joined):
   checked), s.isdigit(), s[:n] / s[n:], tuples, x if c else y, list comprehensions and
   generator expressions (mapM), ''.join(list), obj.items(), obj.__class__(generator),
   RecursionSpec(spec).
+  isinstance: besides being translated (isinst_any over the value universe), the class tuples of
+  every isinstance test of a method are emitted as data (gen_<method>_isinstance_tests); the proofs
+  run that ladder over a table of Python types the value universe lacks (bytearray, frozenset, ...).
 """
 import ast
 import os
@@ -1095,6 +1098,52 @@ class Unit:
         self.type_attrs = {n: True for n in names}
         return names
 
+    def isinstance_tests(self, name):
+        """every `isinstance(x, C)` of the method, in source order -> (tests on the first parameter,
+        tests on anything else); C as the alphabetically sorted class names, or ['self.<attr>'] for
+        the passthrough / special types.  The proofs evaluate this ladder over a table of Python
+        types (bytearray, frozenset, ... which the value universe does not contain), so dropping or
+        adding a class in any test breaks them."""
+        src = self.signature(name)
+        subject = next((pn for pn, pty in src['params'] if pty not in ('ambient', 'memo')), None)
+        found = []
+
+        class V(ast.NodeVisitor):
+            def visit_Call(v, node):
+                if isinstance(node.func, ast.Name) and node.func.id == 'isinstance':
+                    found.append(node)
+                v.generic_visit(node)
+        for st in src['fn'].body:
+            V().visit(st)
+        for n in ast.walk(src['fn']):
+            if isinstance(n, ast.Name) and n.id == 'isinstance' and isinstance(n.ctx, ast.Store):
+                raise Untranslatable('isinstance is rebound')
+        on_subject, others = [], []
+        for c in found:
+            if len(c.args) != 2 or c.keywords:
+                raise Untranslatable('isinstance form')
+            k = c.args[1]
+            if self.type_attrs and isinstance(k, ast.Attribute) and isinstance(k.value, ast.Name) \
+                    and k.value.id == 'self' and k.attr in self.type_attrs:
+                names = ['self.' + k.attr]
+            else:
+                cs = k.elts if isinstance(k, ast.Tuple) else [k]
+                names = []
+                for x in cs:
+                    if not isinstance(x, ast.Name) or x.id not in KNOWN_CLASSES:
+                        raise Untranslatable(f'isinstance against {ast.unparse(x)}')
+                    self.check_class_name(x.id)
+                    names.append(x.id)
+                names = sorted(set(names))
+            if isinstance(c.args[0], ast.Name) and c.args[0].id == subject:
+                on_subject.append(names)
+            else:
+                others.append(names)
+
+        def lst(xss):
+            return '[' + '; '.join('[' + '; '.join(coq_str(x) for x in xs) + ']' for xs in xss) + ']'
+        return f': list (list string) * list (list string) :=\n  ({lst(on_subject)}, {lst(others)})'
+
     def method(self, name):
         src = self.signature(name)
         tr = Tr(self, name)
@@ -1387,6 +1436,12 @@ def translate_all():
                                          lambda n=name: unit.method(n), indent='  ', raw=True)
         lines.append('')
     lines += ['End GenFormatter.', '']
+    for name in ORDER:
+        gname = SIGS[name]['coq'] + '_isinstance_tests'
+        status[gname] = emit(lines, f'pypyr/formatting.py :: RecursiveFormatter.{name}: the isinstance tests, in source '
+                             'order (on the first parameter, on anything else)', gname,
+                             lambda n=name: unit.isinstance_tests(n))
+    lines.append('')
 
     lines += ['Section GenTags.',
               '  (* context.get_eval_string / context.get_formatted_value / json.dumps: left abstract *)',
